@@ -463,6 +463,32 @@ func (h *c07H) addX(late func(), step int) {
 		_, p.ReqECS, _ = net.ParseCIDR("1.2.3.0/24")
 	}
 
+	if h.wideLines {
+		// The property (and qLogFile's reader) speaks of lines shorter than
+		// the entry limit: many short TXT strings, base64 and a copy in
+		// OrigAnswer can push a wide line past it; such a record is made
+		// narrower instead of being recorded (class wide-line-trimmed).
+		for tries := 0; tries < 8; tries++ {
+			dry := newLogEntry(h.ctx, slog.New(h.hook), p)
+			db, _ := json.Marshal(dry)
+			if len(db)+64 < maxEntrySize {
+				break
+			}
+			h.cls["wide-line-trimmed"] = true
+			if p.OrigAnswer != nil {
+				p.OrigAnswer = nil
+
+				continue
+			}
+			if p.Answer != nil && len(p.Answer.Answer) > 1 {
+				p.Answer.Answer = p.Answer.Answer[:len(p.Answer.Answer)/2]
+
+				continue
+			}
+			p.Answer = nil
+		}
+	}
+
 	if len(h.tuneLen) > 0 {
 		p.Answer, p.OrigAnswer = nil, nil
 		dry := newLogEntry(h.ctx, slog.New(h.hook), p)
